@@ -612,8 +612,12 @@ def find_group_cohorts(
             continue
         merged_keys.update(cohort)
         allchunks = (label_chunks[member].tolist() for member in cohort)
-        chunk = tuple(set(itertools.chain(*allchunks)))
-        merged_cohorts[chunk] = cohort
+        chunk = tuple(sorted(set(itertools.chain(*allchunks))))
+        if chunk in merged_cohorts:
+            # two merged cohorts that occupy exactly the same blocks are one cohort
+            merged_cohorts[chunk] = sorted(merged_cohorts[chunk] + cohort)
+        else:
+            merged_cohorts[chunk] = cohort
 
     actual_ngroups = np.concatenate(tuple(merged_cohorts.values())).size
     expected_ngroups = present_labels.size
